@@ -19,10 +19,15 @@ func SafeCmdExecution(executable string, args []string, timeout time.Duration) (
 	defer cancel()
 
 	cmd := exec.CommandContext(ctx, executable, args...)
+	// don't wait (potentially forever) for child processes of the command that keep its output open
+	cmd.WaitDelay = 250 * time.Millisecond
 	out, err := cmd.Output()
 
 	if ctx.Err() == context.DeadlineExceeded {
 		ui.Warning("Command timed out: %s", executable)
+		if err == nil {
+			err = ctx.Err()
+		}
 		return "", err
 	}
 
